@@ -20,6 +20,7 @@ structure GoField where
   mavlen : String := ""
   mavext : String := ""
   mavname : String := ""
+  exported : Bool := true         -- `reflect.StructField.IsExported()`
 deriving Repr, DecidableEq, Inhabited
 
 structure GoStruct where
@@ -49,6 +50,7 @@ structure RW where
 deriving Repr, DecidableEq, Inhabited
 
 inductive InitErr | namePrefix | enumNotUint64 | unsupported | enumType | strLen
+  | unexported | arrLen | strArray | extOrder | tooBig   -- `fix: reject at initialization the message structs that cannot be encoded`
 deriving Repr, DecidableEq
 
 /-! ### name conversions: regexp `([A-Z])` → `_$1`, drop first char, change case -/
@@ -81,8 +83,8 @@ def byteOfInt (i : Int) : UInt8 := UInt8.ofNat (i % 256).toNat
 
 def strBytes (s : String) : Bytes := s.toUTF8.toList
 
-/-- per-field part of Initialize -/
-def initField (i : Nat) (f : GoField) : Except InitErr DField := do
+/-- per-field part of Initialize, after the two guards of `initField` -/
+def initFieldCore (i : Nat) (f : GoField) : Except InitErr DField := do
   let arrayLength0 : UInt8 := if f.isArray then UInt8.ofNat f.arrLen else 0
   if f.mavenum ≠ "" then
     if !f.elemIsUint64 then throw .enumNotUint64
@@ -98,14 +100,21 @@ def initField (i : Nat) (f : GoField) : Except InitErr DField := do
     | none => throw .unsupported
     | some t =>
       let (al, isArr) ← (if f.elemType == "string" then
-          (if f.mavlen.length == 0 then pure ((1 : UInt8), f.isArray)
+          (if f.isArray then throw InitErr.strArray
+           else if f.mavlen.length == 0 then pure ((1 : UInt8), false)
            else match atoi f.mavlen with
              | none => throw InitErr.strLen
-             | some n => pure (byteOfInt n, true))
+             | some n => if n < 1 || n > 255 then throw InitErr.strLen else pure (byteOfInt n, true))
         else pure (arrayLength0, f.isArray) : Except InitErr (UInt8 × Bool))
       pure { isEnum := false, ftype := t, name := if f.mavname ≠ "" then f.mavname else fieldGoToDef f.goName,
              arrayLength := al, isArray := isArr, index := i, isExt := f.mavext == "true",
              goIsArray := f.isArray, goArrLen := f.arrLen }
+
+/-- per-field part of Initialize -/
+def initField (i : Nat) (f : GoField) : Except InitErr DField :=
+  if !f.exported then throw .unexported
+  else if f.isArray && (f.arrLen < 1 || f.arrLen > 255) then throw .arrLen
+  else initFieldCore i f
 
 def DField.size (f : DField) : UInt8 :=
   if f.arrayLength > 0 then Gen.fieldTypeSizes f.ftype * f.arrayLength else Gen.fieldTypeSizes f.ftype
@@ -140,15 +149,32 @@ def crcExtraOf (msgName : String) (sorted : List DField) : UInt8 :=
       if f.isArray then X25.write h [f.arrayLength] else h) h0
   Gen.crcExtraFold h
 
-def init (s : GoStruct) : Except InitErr RW := do
-  if !s.name.startsWith "Message" then throw .namePrefix
+/-- extension fields follow the base fields (the loop's `seenExtension` flag) -/
+def extOrderOk (fs : List DField) : Bool := (fs.dropWhile (!·.isExt)).all (·.isExt)
+
+/-- payload size with unbounded integers (the `int` accumulator of Initialize) -/
+def sizeNat (f : DField) : Nat :=
+  (Gen.fieldTypeSizes f.ftype).toNat * (if f.arrayLength > 0 then f.arrayLength.toNat else 1)
+
+def sizeTotal (fs : List DField) : Nat := (fs.map sizeNat).sum
+
+/-- what Initialize stores once every check has passed -/
+def mkRW (s : GoStruct) (fs : List DField) : RW :=
   let msgName := msgGoToDef (s.name.drop 7).toString
-  let fs ← initFields 0 s.fields
   let sizeX := fs.foldl (fun a f => a + f.size) (0 : UInt8)
   let sizeN := fs.foldl (fun a f => if f.isExt then a else a + f.size) (0 : UInt8)
   let sorted := sortFields fs
-  pure { fields := sorted, sizeNormal := sizeN, sizeExtended := sizeX,
-         crcExtra := crcExtraOf msgName sorted, nfields := fs.length }
+  { fields := sorted, sizeNormal := sizeN, sizeExtended := sizeX,
+    crcExtra := crcExtraOf msgName sorted, nfields := fs.length }
+
+def init (s : GoStruct) : Except InitErr RW :=
+  if !s.name.startsWith "Message" then throw .namePrefix else
+  match initFields 0 s.fields with
+  | .error e => .error e
+  | .ok fs =>
+    if !extOrderOk fs then throw .extOrder
+    else if sizeTotal fs > 255 then throw .tooBig
+    else .ok (mkRW s fs)
 
 /-! ### values -/
 
